@@ -305,6 +305,8 @@ class VCF(Harness):
             for buf in bufs:
                 for crlf in ((False, True) if buf == "VCFBuffer" else (False,)):
                     out.append(dict(recs=recs, buffer=buf, crlf=crlf, prior=None))
+        for buf in bufs:
+            out.append(dict(recs=sets[1], buffer=buf, crlf=False, prior=None, prior_header=True))
         # history: the same header was parsed before with another buffer type in this process (class-level caches keyed by header)
         for recs in sets[:1] if tier == "quick" else sets:
             for prior in bufs + ("PhasedVCFMatrixBuffer",):
@@ -371,6 +373,13 @@ class VCF(Harness):
         if skel.get("prior"):
             pd = NpDataclassReader(NumpyFileReader(ctx.file(self._content(skel, x)), getattr(vb, skel["prior"])), lazy=False).read()
             len(pd), pd.info
+        if skel.get("prior_header"):
+            # another file was parsed earlier in the process: the same INFO ids in the same order, declared with other types
+            other = VCF_HEADER.replace("ID=DP,Number=1,Type=Integer", "ID=DP,Number=A,Type=String").replace("ID=FLX,Number=1,Type=Integer", "ID=FLX,Number=1,Type=Float")
+            assert other != VCF_HEADER
+            rec = "c\t5\ti\tA\tC\t.\tPA\tDP=x,y\tGT\t0/1\t1/1\n"
+            pd = NpDataclassReader(NumpyFileReader(ctx.file(list((other + rec).encode())), buf), lazy=False).read()
+            len(pd), pd.info.DP
         d = NpDataclassReader(NumpyFileReader(ctx.file(self._content(skel, x)), buf), lazy=False).read()
         res = dict(n=len(d), chrom=ctx.lst(d.chromosome.raw()), pos=ctx.lst(d.position), id=ctx.lst(d.id), ref=ctx.lst(d.ref_seq),
                    alt=ctx.lst(d.alt_seq), filter=ctx.lst(d.filter), dp=ctx.lst(d.info.DP), fl=ctx.lst(d.info.FL))
@@ -419,6 +428,9 @@ class VCF(Harness):
                 for g_, e_ in zip(got, e):
                     eq(g_, e_)
             else:
+                if isinstance(got, (list, tuple, str, bytes)) or got is None:
+                    conj.append(z3.BoolVal(False))       # a list / text where a number is expected
+                    return
                 conj.append(TI(got) == e)
         for k in ("chrom", "pos", "id", "ref", "alt", "filter", "dp", "fl"):
             eq(out[k], exp[k])
